@@ -6,7 +6,7 @@ package main
 //     (this clause is part of the property);
 //  2. for the shipped grammars, the other .tm files of the repository, mutations of them and random
 //     feature-rich grammars: generates several times in this process and in child processes
-//     (`tmh C18-child <file>`, GOMAXPROCS=1 and 16) and compares the digests of everything passed to
+//     (`tmh C18-child <file>…`, GOMAXPROCS=1 and 16) and compares the digests of everything passed to
 //     Writer.Write (names, order, contents); a differing file is a violation (grammar + file name);
 //  3. checks on every compiled grammar the data invariants that two order-independence lemmas assume
 //     (ActionVars.Remap injective; ArgRefs[k].Pos == k);
@@ -40,7 +40,7 @@ import (
 func init() {
 	props["C18"] = c18
 	if len(os.Args) >= 3 && os.Args[1] == "C18-child" {
-		c18Child(os.Args[2])
+		c18Child(os.Args[2:])
 		os.Exit(0)
 	}
 }
@@ -135,8 +135,14 @@ func c18CompileGenerate(path string) (r c18Run, g *grammar.Grammar) {
 	return c18Digest(w, err), g
 }
 
-// c18Child: `tmh C18-child <grammar>` prints the run in a line format parsed by c18ParseChild.
-func c18Child(path string) {
+// c18Child: `tmh C18-child <grammar>…` generates the grammars in the given order in this (fresh) process and
+// prints the run of the LAST one in a line format parsed by c18ParseChild. One argument: a fresh-process run;
+// several: the last grammar with the others as process history.
+func c18Child(paths []string) {
+	for _, p := range paths[:len(paths)-1] {
+		c18GenerateFile(p)
+	}
+	path := paths[len(paths)-1]
 	r, _ := c18GenerateFile(path)
 	if r.Err != "" && os.Getenv("C18_DUMP") != "" {
 		_, err := gen.GenerateFile(context.Background(), path, &c18Out{content: map[string]string{}}, gen.Options{})
@@ -242,6 +248,7 @@ func c18(c *Ctx) {
 		return true
 	}
 	nMut, nRand := c.N(8, 40), c.N(14, 80)
+	var pairs [][2]int // history pairs (a, b): b is generated after a in one fresh process
 	mutSources := []string{"parsers/test/test.tm", "parsers/json/json.tm", "parsers/simple/simple.tm", "testing/ts/json/json.tm", "testing/cpp/json/json.tm", "parsers/tm/textmapper.tm"}
 	for i, tries := 0, 0; i < nMut && tries < 4*nMut; tries++ {
 		src := mutSources[c.Rng.Intn(len(mutSources))]
@@ -263,17 +270,53 @@ func c18(c *Ctx) {
 			i++
 		}
 	}
+	// C++ grammars with several distinct implicit casts of default actions (static_assert list), flexMode on/off
+	for i, tries := 0, 0; i < c.N(5, 16) && tries < 4*c.N(5, 16); tries++ {
+		if addText("cc-casts", fmt.Sprintf("casts%d", i), c18CastGrammar(c.Rng, fmt.Sprintf("c%d", i))) {
+			i++
+		}
+	}
+	// variants: the same grammar with another nodePrefix (same node names, different rendered ids)
+	nv := 0
+	for gi := range pool {
+		g := pool[gi]
+		if g.Kind != "random" || nv >= c.N(4, 12) {
+			continue
+		}
+		if addText("variant", "var-"+g.Name, c18PrefixVariant(g.Text)) {
+			pairs = append(pairs, [2]int{gi, len(pool) - 1}, [2]int{len(pool) - 1, gi})
+			nv++
+		}
+	}
 	// witness of the fixed finding C18-opt-alias-collision: must be deterministic now
 	must(os.WriteFile(filepath.Join(tmp, "witness.tm"), []byte(c18Witness), 0o644))
 	pool = append(pool, c18Gram{Name: "witness-opt-alias", Path: filepath.Join(tmp, "witness.tm"), Text: c18Witness, Kind: "witness"})
 
 	// ---- 2. children first (they run in parallel with the in-process work below)
+	// history pairs: consecutive grammars of one target language (random order), both directions
+	byLang := map[string][]int{}
+	for gi, g := range pool {
+		if !g.Heavy {
+			byLang[c18Lang(g.Path)] = append(byLang[c18Lang(g.Path)], gi)
+		}
+	}
+	for _, lang := range []string{"go", "ts", "cc"} {
+		l := byLang[lang]
+		c.Rng.Shuffle(len(l), func(a, b int) { l[a], l[b] = l[b], l[a] })
+		for k := 0; k+1 < len(l) && k < c.N(10, 40); k++ {
+			pairs = append(pairs, [2]int{l[k], l[k+1]}, [2]int{l[k+1], l[k]})
+		}
+	}
 	type childJob struct {
 		g     int
+		after int // >= 0: history job, grammar `after` is generated first in the same process
 		procs int
 		out   c18Run
 	}
 	var jobs []*childJob
+	for _, pr := range pairs {
+		jobs = append(jobs, &childJob{g: pr[1], after: pr[0], procs: 1})
+	}
 	for gi, g := range pool {
 		n := c.N(2, 4)
 		if g.Heavy {
@@ -284,7 +327,7 @@ func c18(c *Ctx) {
 		}
 		for _, procs := range []int{1, 16} {
 			for k := 0; k < n; k++ {
-				jobs = append(jobs, &childJob{g: gi, procs: procs})
+				jobs = append(jobs, &childJob{g: gi, after: -1, procs: procs})
 			}
 		}
 	}
@@ -302,7 +345,11 @@ func c18(c *Ctx) {
 		go func() {
 			defer wg.Done()
 			for j := range ch {
-				cmd := exec.Command(self, "C18-child", pool[j.g].Path)
+				args := []string{"C18-child"}
+				if j.after >= 0 {
+					args = append(args, pool[j.after].Path)
+				}
+				cmd := exec.Command(self, append(args, pool[j.g].Path)...)
 				cmd.Env = append(os.Environ(), fmt.Sprintf("GOMAXPROCS=%d", j.procs))
 				var out bytes.Buffer
 				cmd.Stdout = &out
@@ -331,7 +378,7 @@ func c18(c *Ctx) {
 		res := &results[gi]
 		// run 1: gen.GenerateFile (for shipped grammars also compared with the committed files)
 		r1, w := c18GenerateFile(g.Path)
-		res.runs, res.labels = append(res.runs, r1), append(res.labels, "in-process#1")
+		res.runs, res.labels = append(res.runs, r1), append(res.labels, "in-process#1 (after every grammar generated earlier by this harness process)")
 		if g.Kind == "shipped" {
 			ndiff := 0
 			var bad []string
@@ -365,19 +412,29 @@ func c18(c *Ctx) {
 		if g.Kind == "witness" {
 			extra = 40
 		}
+		if g.Kind == "cc-casts" {
+			extra = 6
+		}
 		for k := 0; k < extra; k++ {
 			r, _ := c18GenerateFile(g.Path)
 			res.runs, res.labels = append(res.runs, r), append(res.labels, fmt.Sprintf("in-process#%d", k+3))
 		}
 	}
 	<-done
+	fresh := map[int]c18Run{} // first fresh-process run of each grammar
 	for _, j := range jobs {
+		if j.after >= 0 {
+			continue
+		}
 		res := &results[j.g]
 		res.runs = append(res.runs, j.out)
-		res.labels = append(res.labels, fmt.Sprintf("child(GOMAXPROCS=%d)", j.procs))
+		res.labels = append(res.labels, fmt.Sprintf("fresh child process (GOMAXPROCS=%d)", j.procs))
+		if _, ok := fresh[j.g]; !ok {
+			fresh[j.g] = j.out
+		}
 	}
-
 	// ---- compare
+	nondet := map[int]bool{}
 	for gi, g := range pool {
 		res := results[gi]
 		var ds []string
@@ -398,6 +455,7 @@ func c18(c *Ctx) {
 				continue
 			}
 			what := c18Describe(res.runs[0], res.runs[k])
+			nondet[gi] = true
 			tag := ""
 			if g.Kind == "witness" {
 				tag = " [C18-opt-alias-collision]"
@@ -410,8 +468,116 @@ func c18(c *Ctx) {
 			break
 		}
 	}
+	// ---- history dependence: B after A in one process vs B alone in a fresh process
+	for _, j := range jobs {
+		if j.after < 0 {
+			continue
+		}
+		a, b := pool[j.after], pool[j.g]
+		if nondet[j.g] {
+			c.Count("history-pairs-skipped-nondeterministic")
+			continue // already reported: the grammar differs between runs without any history
+		}
+		fr := fresh[j.g]
+		c.Count("history-pairs-" + c18Lang(b.Path))
+		c.Case(fmt.Sprintf("hist %s %s %s %s", c18NameRE.ReplaceAllString(b.Name, "_"), c18NameRE.ReplaceAllString(a.Name, "_"), fr.Digest, j.out.Digest),
+			"same", "hist:"+a.Name+">"+b.Name)
+		if fr.Digest != j.out.Digest {
+			show := func(g c18Gram) string {
+				if g.Text != "" {
+					return g.Name + "\n" + g.Text
+				}
+				return g.Name + " (file of the repository)"
+			}
+			c.Violate(fmt.Sprintf("history dependence: grammar %s generated after grammar %s in one process differs from %s generated alone in a fresh process: %s",
+				b.Name, a.Name, b.Name, c18Describe(fr, j.out)),
+				"history: first "+show(a)+"\n---- then "+show(b))
+		}
+	}
+
 	c.Extra["grammars"] = len(pool)
 	c.Extra["child_runs"] = len(jobs)
+}
+
+var c18LangRE = regexp.MustCompile(`(?m)^language\s+\w+\s*\(\s*(\w+)\s*\)`)
+
+// c18Lang: target language of a grammar file ("" when unknown).
+func c18Lang(path string) string {
+	b, err := os.ReadFile(path)
+	if err != nil {
+		return ""
+	}
+	if m := c18LangRE.FindSubmatch(b); m != nil {
+		return string(m[1])
+	}
+	return ""
+}
+
+var c18PrefixRE = regexp.MustCompile(`(?m)^nodePrefix = "[^"]*"\n`)
+
+// c18PrefixVariant: the same grammar with another (or a first) nodePrefix.
+func c18PrefixVariant(text string) string {
+	if c18PrefixRE.MatchString(text) {
+		return c18PrefixRE.ReplaceAllString(text, "")
+	}
+	return strings.Replace(text, "eventBased = true\n", "eventBased = true\nnodePrefix = \"Vr\"\n", 1)
+}
+
+// c18CastGrammar: a C++ grammar in which typed nonterminals forward the value of their first right-hand side
+// symbol without a semantic action although the types differ: one implicit cast (static_assert in the
+// generated parser) per distinct (rhs type, lhs type) pair; 2–6 of them.
+func c18CastGrammar(r *rand.Rand, name string) string {
+	flex := r.Intn(3) == 0
+	var sb strings.Builder
+	fmt.Fprintf(&sb, "language %s(cc);\n\nnamespace = %q\nincludeGuardPrefix = \"%s_\"\nfilenamePrefix = \"%s_\"\n", name, name, strings.ToUpper(name), name)
+	if flex {
+		sb.WriteString("flexMode = true\n")
+	}
+	if r.Intn(3) == 0 {
+		sb.WriteString("eventBased = true\n")
+	}
+	if r.Intn(4) == 0 {
+		sb.WriteString("optimizeTables = true\n")
+	}
+	ttypes := []string{"int", "std::string", "double", "bool", "char", "int64_t"}
+	r.Shuffle(len(ttypes), func(a, b int) { ttypes[a], ttypes[b] = ttypes[b], ttypes[a] })
+	nt := 3 + r.Intn(3)
+	pats := []string{"/[0-9]+/", `/"[^"]*"/`, "/[a-z]+/", "/#[a-f]+/", "/@[A-Z]+/"}
+	sb.WriteString("\n:: lexer\n\n")
+	for i := 0; i < nt; i++ {
+		if flex {
+			fmt.Fprintf(&sb, "tok%d {%s}:\n", i, ttypes[i])
+		} else {
+			fmt.Fprintf(&sb, "tok%d {%s}: %s\n", i, ttypes[i], pats[i])
+		}
+	}
+	sb.WriteString("';': /;/\n',': /,/\n")
+	if flex {
+		sb.WriteString("space: (space)\n")
+	} else {
+		sb.WriteString("space: /[ \\t\\r\\n]+/ (space)\n")
+	}
+	sb.WriteString("\n:: parser\n\n%input file;\n\nfile :\n    stmt\n  | file stmt\n;\n\n")
+	// wrappers: each wraps 1-2 tokens; stmt wraps the wrappers
+	nw := 2 + r.Intn(2)
+	wtypes := []string{"Value", "Name", "Item", "Leaf"}
+	var stmtAlts []string
+	tok := 0
+	for w := 0; w < nw; w++ {
+		var alts []string
+		for k := 0; k < 1+r.Intn(2) && tok < nt; k++ {
+			alts = append(alts, fmt.Sprintf("tok%d", tok))
+			tok++
+		}
+		if len(alts) == 0 {
+			alts = append(alts, fmt.Sprintf("tok%d ','", r.Intn(nt)))
+		}
+		fmt.Fprintf(&sb, "wrap%d {%s} :\n    %s\n;\n\n", w, wtypes[w], strings.Join(alts, "\n  | "))
+		stmtAlts = append(stmtAlts, fmt.Sprintf("wrap%d ';'", w))
+	}
+	r.Shuffle(len(stmtAlts), func(a, b int) { stmtAlts[a], stmtAlts[b] = stmtAlts[b], stmtAlts[a] })
+	fmt.Fprintf(&sb, "stmt {Node} :\n    %s\n;\n", strings.Join(stmtAlts, "\n  | "))
+	return sb.String()
 }
 
 func c18Describe(a, b c18Run) string {
@@ -710,6 +876,11 @@ func c18RandGrammar(r *rand.Rand, name string) (string, []string) {
 		optSuffix = []string{"_opt", "-opt", "Opt"}[r.Intn(3)]
 		fmt.Fprintf(&sb, "optInstantiationSuffix = %q\n", optSuffix)
 		feat("custom-opt-suffix")
+	}
+	if pick(35) {
+		// rendered node ids depend on it: grammars sharing node names but not the prefix expose caches
+		fmt.Fprintf(&sb, "nodePrefix = %q\n", []string{"Nd", "X", "T_"}[r.Intn(3)])
+		feat("node-prefix")
 	}
 	if pick(30) {
 		sb.WriteString("aliasIncludesOptSuffix = false\n")
